@@ -1,6 +1,7 @@
 package treemap
 
 import (
+	"github.com/emirpasic/gods/v2/maps"
 	"strings"
 	"encoding/json"
 	"github.com/emirpasic/gods/v2/containers"
@@ -111,7 +112,7 @@ func VHIter() {
 // VHEnum: Each/Any/All/Find/Select/Map with arbitrary predicate and mapping functions (C14).
 func VHEnum() {
 	m := VGSmall()
-	containers.VEnumStep(containers.VEnum{Recv: m,
+	containers.VEnumStep(containers.VEnum{Recv: m, Inv: func(c any) { rbt.VInv(c.(*Map[int, int]).tree) },
 		Seq: func(c any) ([]int, []int) {
 			r := c.(*Map[int, int])
 			ks := r.Keys()
@@ -182,4 +183,10 @@ func VHString() {
 	s := c.String()
 	v.EndOp()
 	v.Assert(strings.HasPrefix(s, "TreeMap"), "C15:string-begins-with-container-name")
+}
+
+// VHHistory: D operations in a row from the constructor (see VMapHistory).
+func VHHistory() {
+	m := NewWith[int, int](vl.Cmp)
+	maps.VMapHistory(m, maps.VKind{Name: "TreeMap", SortedKeys: true, Inv: func() { rbt.VInv(m.tree) }})
 }
